@@ -40,6 +40,10 @@ pub enum Op {
         user: Acct,
         funds: Vec<C>,
         action: Fwd,
+        /// the contract finishes with a call to itself, whose entry observes the ledger once more
+        /// (after its own sends / burns, still inside the transaction)
+        #[serde(default)]
+        probe: bool,
     },
 }
 
@@ -60,20 +64,57 @@ pub struct Case {
 #[derive(Serialize, Deserialize, Clone, Debug)]
 pub enum FwdMsg {
     Nothing,
+    /// like the inner message, followed by a call to the contract itself
+    ThenProbe(Box<FwdMsg>),
     Send { to: String, amount: Vec<Coin> },
     Burn { amount: Vec<Coin> },
     Send2 { to1: String, amount1: Vec<Coin>, to2: String, amount2: Vec<Coin> },
 }
 
-fn fwd_execute(_deps: DepsMut, _env: Env, _info: MessageInfo, msg: FwdMsg) -> StdResult<Response> {
-    Ok(match msg {
+thread_local! {
+    /// addresses of all accounts, ledgers expected at the successive in-transaction observation
+    /// points of the running operation, number of observations made, first disagreement
+    static PROBE: std::cell::RefCell<(Vec<Addr>, Vec<Ledger>, usize, Option<Failure>)> = std::cell::RefCell::new((vec![], vec![], 0, None));
+}
+
+/// the contract looks at the ledger through its own querier, i.e. in the middle of the transaction
+fn observe(deps: &DepsMut) {
+    let (addrs, expect, idx) = PROBE.with(|p| {
+        let p = p.borrow();
+        (p.0.clone(), p.1.clone(), p.2)
+    });
+    PROBE.with(|p| p.borrow_mut().2 += 1);
+    let Some(led) = expect.get(idx) else { return };
+    if let Err(f) = check_view(&deps.querier, &addrs, led, &format!("inside the transaction (observation {} made by the contract)", idx)) {
+        PROBE.with(|p| {
+            let mut p = p.borrow_mut();
+            if p.3.is_none() {
+                p.3 = Some(f);
+            }
+        });
+    }
+}
+
+fn fwd_execute(deps: DepsMut, env: Env, _info: MessageInfo, msg: FwdMsg) -> StdResult<Response> {
+    observe(&deps);
+    let (msg, probe) = match msg {
+        FwdMsg::ThenProbe(inner) => (*inner, true),
+        m => (m, false),
+    };
+    let resp = fwd_act(msg);
+    Ok(if probe { resp.add_message(WasmMsg::Execute { contract_addr: env.contract.address.to_string(), msg: to_json_binary(&FwdMsg::Nothing)?, funds: vec![] }) } else { resp })
+}
+
+fn fwd_act(msg: FwdMsg) -> Response {
+    match msg {
+        FwdMsg::ThenProbe(_) => Response::new(),
         FwdMsg::Nothing => Response::new(),
         FwdMsg::Send { to, amount } => Response::new().add_message(BankMsg::Send { to_address: to, amount }),
         FwdMsg::Burn { amount } => Response::new().add_message(BankMsg::Burn { amount }),
         FwdMsg::Send2 { to1, amount1, to2, amount2 } => Response::new()
             .add_message(BankMsg::Send { to_address: to1, amount: amount1 })
             .add_message(BankMsg::Send { to_address: to2, amount: amount2 }),
-    })
+    }
 }
 fn fwd_instantiate(_deps: DepsMut, _env: Env, _info: MessageInfo, _msg: Empty) -> StdResult<Response> {
     Ok(Response::new())
@@ -148,7 +189,7 @@ impl Ledger {
             Op::Mint(a, coins) => next.credit(*a, coins)?,
             Op::Send(f, t, coins) | Op::SendTokens(f, t, coins) => next.send(*f, *t, coins)?,
             Op::Burn(a, coins) => next.debit(*a, coins)?,
-            Op::ViaContract { user, funds, action } => {
+            Op::ViaContract { user, funds, action, .. } => {
                 // attached funds: an empty list moves nothing; a non-empty list is a bank send
                 if !funds.is_empty() {
                     next.send(*user, CONTRACT, funds)?;
@@ -277,7 +318,7 @@ fn gen_op(g: &mut Gen, led: &Ledger) -> Op {
                     Fwd::Send2(t1, c1, t2, gen_coins(g, &after2, Some(CONTRACT)))
                 }
             };
-            Op::ViaContract { user: u, funds, action }
+            Op::ViaContract { user: u, funds, action, probe: g.bool() }
         }
     }
 }
@@ -306,16 +347,20 @@ fn setup() -> World {
 }
 
 fn check_queries(w: &World, led: &Ledger, step: usize) -> Result<(), Failure> {
-    for (i, addr) in w.addrs.iter().enumerate() {
+    check_view(&w.app.wrap(), &w.addrs, led, &format!("after op {}", step))
+}
+
+fn check_view(q: &cosmwasm_std::QuerierWrapper, addrs: &[Addr], led: &Ledger, step: &str) -> Result<(), Failure> {
+    for (i, addr) in addrs.iter().enumerate() {
         let mut want_all: Vec<Coin> = vec![];
         for (d, name) in DENOMS.iter().enumerate() {
             let want = led.get(i, d);
-            let got = w.app.wrap().query_balance(addr, *name);
+            let got = q.query_balance(addr, *name);
             match got {
                 Ok(c) => ensure!(
                     c.amount.u128() == want && c.denom == *name,
                     "C09:balance-mismatch",
-                    "after op {}: Balance({}, {}) = {} but the sum of all prior operations gives {}",
+                    "{}: Balance({}, {}) = {} but the sum of all prior operations gives {}",
                     step, i, name, c, want
                 ),
                 Err(e) => fail!("C09:query-failed", "Balance query failed: {}", e),
@@ -326,25 +371,25 @@ fn check_queries(w: &World, led: &Ledger, step: usize) -> Result<(), Failure> {
         }
         want_all.sort_by(|a, b| a.denom.cmp(&b.denom));
         #[allow(deprecated)]
-        let all = w.app.wrap().query_all_balances(addr);
+        let all = q.query_all_balances(addr);
         match all {
             Ok(all) => {
                 let dup = all.windows(2).any(|p| p[0].denom >= p[1].denom);
                 let zero = all.iter().any(|c| c.amount.is_zero());
-                ensure!(!dup, "C09:all-balances-not-normalised", "after op {}: AllBalances({}) = {:?} is not strictly sorted by denom", step, i, all);
-                ensure!(!zero, "C09:all-balances-has-zero-entry", "after op {}: AllBalances({}) = {:?} lists a zero amount", step, i, all);
-                ensure!(all == want_all, "C09:all-balances-mismatch", "after op {}: AllBalances({}) = {:?}, expected {:?}", step, i, all, want_all);
+                ensure!(!dup, "C09:all-balances-not-normalised", "{}: AllBalances({}) = {:?} is not strictly sorted by denom", step, i, all);
+                ensure!(!zero, "C09:all-balances-has-zero-entry", "{}: AllBalances({}) = {:?} lists a zero amount", step, i, all);
+                ensure!(all == want_all, "C09:all-balances-mismatch", "{}: AllBalances({}) = {:?}, expected {:?}", step, i, all, want_all);
             }
             Err(e) => fail!("C09:query-failed", "AllBalances query failed: {}", e),
         }
     }
     for (d, name) in DENOMS.iter().enumerate() {
         let want = led.supply(d);
-        match w.app.wrap().query_supply(*name) {
+        match q.query_supply(*name) {
             Ok(c) => ensure!(
                 c.amount == Uint128::new(want),
                 "C09:supply-mismatch",
-                "after op {}: Supply({}) = {} but the ledger total is {}",
+                "{}: Supply({}) = {} but the ledger total is {}",
                 step, name, c.amount, want
             ),
             Err(e) => fail!("C09:query-failed", "Supply query failed: {}", e),
@@ -379,13 +424,14 @@ fn run_op(w: &mut World, op: &Op) -> Result<bool, String> {
             let from = a(*f);
             catch(|| w.app.execute(from, msg).map(|_| ()))
         }
-        Op::ViaContract { user, funds, action } => {
+        Op::ViaContract { user, funds, action, probe } => {
             let fmsg = match action {
                 Fwd::Nothing => FwdMsg::Nothing,
                 Fwd::Send(t, c) => FwdMsg::Send { to: a(*t).to_string(), amount: to_coins(c) },
                 Fwd::Burn(c) => FwdMsg::Burn { amount: to_coins(c) },
                 Fwd::Send2(t1, c1, t2, c2) => FwdMsg::Send2 { to1: a(*t1).to_string(), amount1: to_coins(c1), to2: a(*t2).to_string(), amount2: to_coins(c2) },
             };
+            let fmsg = if *probe { FwdMsg::ThenProbe(Box::new(fmsg)) } else { fmsg };
             let msg: CosmosMsg = WasmMsg::Execute { contract_addr: a(CONTRACT).to_string(), msg: to_json_binary(&fmsg).unwrap(), funds: to_coins(funds) }.into();
             let from = a(*user);
             catch(|| w.app.execute(from, msg).map(|_| ()))
@@ -413,7 +459,7 @@ impl Check for BankCheck {
         Spec {
             id: "C09",
             level: "exploration",
-            rule: "generated: histories of 1-40 bank operations (init_balance, sudo mint, send, burn, send_tokens, and contract-initiated sends/burns with attached funds) over 4 users, 5 never-seen recipients and a contract, 3 denominations, coin lists of 0-5 coins with repeated denominations, zeros mixed in, all-zero and empty lists, amounts relative to the sender's balance (0, 1, bal-1, bal, bal+1, duplicate split summing to bal or bal+1); after every op every Balance/AllBalances/Supply answer is compared with a reference ledger and failed ops must leave root storage byte-identical. Non-trivial: the history contains a transfer with a repeated denomination, a self-transfer and a rejected overdraft, with >=2 denominations live; distinct = distinct serialised history",
+            rule: "generated: histories of 1-40 bank operations (init_balance, sudo mint, send, burn, send_tokens, and contract-initiated sends/burns with attached funds) over 4 users, 5 never-seen recipients and a contract, 3 denominations, coin lists of 0-5 coins with repeated denominations, zeros mixed in, all-zero and empty lists, amounts relative to the sender's balance (0, 1, bal-1, bal, bal+1, duplicate split summing to bal or bal+1); after every op every Balance/AllBalances/Supply answer is compared with a reference ledger and failed ops must leave root storage byte-identical; the forwarder contract asks the same queries through its own querier in the middle of the transaction (after the attached funds arrived, and again after its own sends/burns) and must get the ledger of that moment. Non-trivial: the history contains a transfer with a repeated denomination, a self-transfer and a rejected overdraft, with >=2 denominations live; distinct = distinct serialised history",
             assumptions: vec![
                 "amounts capped at 2^90 per coin and <= 40 operations, so no balance or supply reaches 2^128 (precondition of the statement)",
                 "recipients are valid bech32 addresses so that queries can observe them",
@@ -464,11 +510,39 @@ impl Check for BankCheck {
         for (i, op) in case.ops.iter().enumerate() {
             let step = i + 1;
             let before = scan(w.app.storage());
+            // ledgers the contract must see from inside the transaction: after the attached funds
+            // arrived, and (probe) after its own sends / burns
+            let mut expect = vec![];
+            if let Op::ViaContract { user, funds, .. } = op {
+                let mut l = led.clone();
+                if funds.is_empty() || l.send(*user, CONTRACT, funds).is_ok() {
+                    expect.push(l);
+                    let mut done = led.clone();
+                    if done.apply(op).is_ok() {
+                        expect.push(done);
+                    }
+                }
+            }
+            let n_expect = expect.len();
+            PROBE.with(|p| *p.borrow_mut() = (w.addrs.clone(), expect, 0, None));
             let want = led.apply(op).is_ok();
             let got = match run_op(&mut w, op) {
                 Ok(b) => b,
                 Err(p) => fail!("C09:panic", "op {} {:?} panicked: {}", step, op, p),
             };
+            let (seen, probe_fail) = PROBE.with(|p| {
+                let mut p = p.borrow_mut();
+                (p.2, p.3.take())
+            });
+            if let Some(f) = probe_fail {
+                return Err(f);
+            }
+            if seen > 0 {
+                cx.label("ledger:observed-inside-transaction");
+            }
+            if seen >= 2 && n_expect >= 2 {
+                cx.label("ledger:observed-after-own-sends");
+            }
             if got != want {
                 let sig = if got { "C09:invalid-operation-accepted" } else { "C09:valid-operation-rejected" };
                 fail!(sig, "op {} {:?}: simulator says {}, reference ledger says {}", step, op, if got { "Ok" } else { "Err" }, if want { "Ok" } else { "Err" });
@@ -543,8 +617,11 @@ impl Check for BankCheck {
                         false
                     }
                 }
-                Op::ViaContract { funds, action, .. } => {
-                    if !funds.is_empty() && !matches!(action, Fwd::Nothing) {
+                Op::ViaContract { funds, action, probe, .. } => {
+                    if *probe {
+                        *probe = false;
+                        true
+                    } else if !funds.is_empty() && !matches!(action, Fwd::Nothing) {
                         *action = Fwd::Nothing;
                         true
                     } else if let Fwd::Send2(t1, c1, _, _) = action.clone() {
